@@ -178,6 +178,10 @@ pub struct ArgSpec {
     /// same definition, reached through another builder history)
     #[serde(skip_serializing_if = "is_default")]
     pub setter_history: bool,
+    /// the argument's own id is handed to `Arg::new` as a `&'static str` (the ids named by relations stay owned
+    /// `String`s, so identifiers of both kinds meet in the library's maps)
+    #[serde(skip_serializing_if = "is_default")]
+    pub static_id: bool,
     /// call every option-valued setter first with a decoy value; the wanted value (or an explicit reset where the
     /// description has none) follows, so the outcome is the same definition
     #[serde(skip_serializing_if = "is_default")]
@@ -436,9 +440,23 @@ fn pred(p: &Pred) -> ArgPredicate {
     }
 }
 
+/// One leaked copy per distinct text (ids come from small pools).
+pub fn intern(s: &str) -> &'static str {
+    static POOL: std::sync::Mutex<Option<std::collections::HashSet<&'static str>>> = std::sync::Mutex::new(None);
+    let mut g = POOL.lock().unwrap_or_else(|e| e.into_inner());
+    let set = g.get_or_insert_with(Default::default);
+    if let Some(x) = set.get(s) {
+        return x;
+    }
+    // (bounded: texts longer than 64 bytes are not interned by callers)
+    let leaked: &'static str = Box::leak(s.to_owned().into_boxed_str());
+    set.insert(leaked);
+    leaked
+}
+
 impl ArgSpec {
     pub fn to_clap(&self) -> Arg {
-        let mut a = Arg::new(self.id.clone());
+        let mut a = if self.static_id && self.id.len() <= 64 { Arg::new(intern(&self.id)) } else { Arg::new(self.id.clone()) };
         if self.decoy_history {
             use clap::builder::Resettable::Reset;
             // decoys first ...
